@@ -328,6 +328,7 @@ type ByzOutcome struct {
 	Accepted bool // appended AND became head with state executed
 	Appended bool
 	Hash     common.Hash
+	HonestHash common.Hash // hash of the honest candidate the rewrite started from (sealed)
 	Err      string
 	TraceNote string // non-empty: the rejected block left this trace in chain state
 }
@@ -353,6 +354,7 @@ func (w *World) Byzantine(n *Node, head common.Hash, m Mutation, arg int, start 
 	if err != nil {
 		return out, fmt.Errorf("construct candidate: %w", err)
 	}
+	out.HonestHash = cand.Hash()
 	blk, err := roundTripBlock(cand, LocZone) // deep copy through the codec
 	if err != nil {
 		return out, err
